@@ -5,6 +5,14 @@ engine (`TaskInterface::*`, `BuildEngine::*`, free functions of namespace llbuil
 (which C parameter lands in which slot, and how byte blobs are turned into keys/values), and the parameters that are
 never referenced.  For the whole file: every `llb_data_t{...}` the library hands to the client (shape: size()/data() of
 one object).  Fails closed on any shape it does not know (`Arg.other` makes the theorems false; unknown AST => ExtractError).
+
+Callback direction (engine -> client) -> Generated/CApiCallbacks.lean: for every method of the `CAPI*` classes
+(`CAPIBuildEngineDelegate`, its nested `CAPIRule`, `CAPITask`; destructors included) every call through a function-pointer
+field of core.h's `llb_rule_t` / `llb_buildengine_delegate_t` / `llb_task_delegate_t`: which field, under which null-check
+guard and with which fallback, the shape of every argument in order, and what is done with the returned value; the
+`Rule::StatusKind -> llb_rule_status_kind_t` mapping (the method is interpreted once per enumerator); the way the cycle's
+key array is built (source parameter, element shape, order).  Unknown shapes become `.other` constructors, which no
+documented row contains; a callback call the AST walk does not account for (text count != AST count) => ExtractError.
 """
 import json, os, re, subprocess
 from xcommon import *
@@ -16,7 +24,25 @@ WRAPPERS = ("ImplicitCastExpr", "MaterializeTemporaryExpr", "CXXBindTemporaryExp
             "CXXFunctionalCastExpr", "ConstantExpr")
 
 
+_AST_CACHE = {}
+
+
 def ast(filt):
+    if filt not in _AST_CACHE:
+        _AST_CACHE[filt] = _ast(filt)
+    return _AST_CACHE[filt]
+
+
+def prefetch(filts):
+    """run the clang invocations of one extraction in parallel (each parses the whole translation unit)"""
+    from concurrent.futures import ThreadPoolExecutor
+    todo = [f for f in filts if f not in _AST_CACHE]
+    with ThreadPoolExecutor(max_workers=max(1, len(todo))) as ex:
+        for f, r in zip(todo, ex.map(_ast, todo)):
+            _AST_CACHE[f] = r
+
+
+def _ast(filt):
     cmd = ["clang++-14", "-std=gnu++17", "-fsyntax-only", "-fno-rtti", "-include", os.path.join(REPO, "include/libstdc++14-workaround.h"),
            "-I" + os.path.join(REPO, "include"), "-I" + os.path.join(REPO, "products/libllbuild/include"),
            "-Xclang", "-ast-dump=json", "-Xclang", "-ast-dump-filter=" + filt, os.path.join(REPO, SRC)]
@@ -195,7 +221,818 @@ class Fn:
         return [i for i, (nm, _) in enumerate(self.params) if nm not in seen]
 
 
+# ==============================================================================================
+# callback direction (engine -> client)
+# ==============================================================================================
+CB_STRUCTS = [("llb_rule_t_", "llb_rule_t", "rule"), ("llb_buildengine_delegate_t_", "llb_buildengine_delegate_t", "engine"),
+              ("llb_task_delegate_t_", "llb_task_delegate_t", "task")]
+CAST_KINDS = ("CStyleCastExpr", "CXXStaticCastExpr", "CXXReinterpretCastExpr", "CXXFunctionalCastExpr")
+
+
+class Unknown(Exception):
+    pass
+
+
+def fnptr_arity(qt):
+    """number of parameters of a function-pointer type spelled `R (*)(A, B, ...)`; None when it is not one"""
+    m = re.match(r"^(.*?)\(\*\)\((.*)\)$", qt.strip())
+    if not m:
+        return None
+    inside = m.group(2).strip()
+    if inside in ("", "void"):
+        return 0
+    depth, n = 0, 1
+    for ch in inside:
+        if ch in "(<[":
+            depth += 1
+        elif ch in ")>]":
+            depth -= 1
+        elif ch == "," and depth == 0:
+            n += 1
+    return n
+
+
+def fnptr_returns_void(qt):
+    return qt.strip().startswith("void (*)")
+
+
+def parents_of(root):
+    par = {}
+    for n in walk(root):
+        for c in n.get("inner", []) or []:
+            if isinstance(c, dict) and "id" in c:
+                par[c["id"]] = n
+    return par
+
+
+def strip_casts(n):
+    n = strip(n)
+    while n.get("kind") in CAST_KINDS and len(n.get("inner", [])) == 1:
+        n = strip(n["inner"][0])
+    return n
+
+
+def is_this(n):
+    return strip(n).get("kind") == "CXXThisExpr"
+
+
+class Callbacks:
+    """everything the callback half extracts"""
+
+    def __init__(self):
+        # --- the client's callback fields (core.h), in declaration order ---------------------------------
+        self.cbs = []            # (ctor, struct typedef, field, arity, returnsVoid)
+        seen_structs = set()
+        for filt, typedef, pre in CB_STRUCTS:
+            recs = [o for o in ast(filt) if o.get("kind") == "CXXRecordDecl" and o.get("name") == filt and o.get("completeDefinition")]
+            if len(recs) != 1:
+                raise ExtractError("struct %s: %d complete definitions" % (filt, len(recs)))
+            seen_structs.add(filt)
+            for c in recs[0]["inner"]:
+                if c.get("kind") == "FieldDecl":
+                    ar = fnptr_arity(c["type"]["qualType"])
+                    if ar is not None:
+                        self.cbs.append(("%s_%s" % (pre, c["name"]), typedef, c["name"], ar, fnptr_returns_void(c["type"]["qualType"])))
+                    elif "(*" in c["type"]["qualType"]:
+                        raise ExtractError("field %s.%s: unparsed function-pointer type %s" % (typedef, c["name"], c["type"]["qualType"]))
+        self.cb_of = {(t, f): ctor for ctor, t, f, _, _ in self.cbs}
+        self.cb_void = {ctor: v for ctor, _, _, _, v in self.cbs}
+        # --- the two status enums -------------------------------------------------------------------------
+        eng = [o for o in ast("StatusKind") if o.get("kind") == "EnumDecl" and o.get("name") == "StatusKind"]
+        if len(eng) != 1:
+            raise ExtractError("Rule::StatusKind: %d enum declarations" % len(eng))
+        self.eng_status = self.enum_constants(eng[0]["inner"])
+        cst = [o for o in ast("llb_rule_") if o.get("kind") == "EnumConstantDecl" and o.get("type", {}).get("qualType") == "llb_rule_status_kind_t"]
+        self.c_status = self.enum_constants(cst)
+        m = re.search(r"typedef\s+enum[^{]*\{(.*?)\}\s*llb_rule_status_kind_t", strip_comments(read(HDR)), re.S)
+        if not m:
+            raise ExtractError("core.h: llb_rule_status_kind_t not found")
+        textual = re.findall(r"\b(llb_\w+)\b[^,]*?=", m.group(1))
+        if textual != [n for n, _ in self.c_status]:
+            raise ExtractError("llb_rule_status_kind_t: header text has %r, AST has %r" % (textual, self.c_status))
+        if not self.eng_status or not self.c_status:
+            raise ExtractError("empty status enum")
+        self.enum_val = dict(self.eng_status)
+        self.enum_val.update(dict(self.c_status))
+        # --- the CAPI classes and their methods -----------------------------------------------------------
+        self.methods = []        # dict(ctor, cls, name, decl, params, body)
+        classes = []
+
+        def collect(rec):
+            if rec.get("kind") == "CXXRecordDecl" and rec.get("name", "").startswith("CAPI") and rec.get("completeDefinition") and not rec.get("isImplicit"):
+                classes.append(rec)
+                for c in rec.get("inner", []):
+                    collect(c)
+        for o in ast("CAPI"):
+            collect(o)
+        if not classes:
+            raise ExtractError("no CAPI* classes")
+        self.class_names = [c["name"] for c in classes]
+        for rec in classes:
+            for c in rec.get("inner", []):
+                if c.get("isImplicit"):
+                    continue
+                body = [x for x in c.get("inner", []) if x.get("kind") == "CompoundStmt"]
+                if c.get("kind") == "CXXConstructorDecl":
+                    if any(self.callback_call(n) for n in walk(c)):
+                        raise ExtractError("constructor of %s calls a client callback" % rec["name"])
+                    continue
+                if c.get("kind") in ("CXXMethodDecl", "CXXDestructorDecl") and body:
+                    nm = "dtor" if c["kind"] == "CXXDestructorDecl" else c["name"]
+                    if not re.fullmatch(r"\w+", nm):
+                        raise ExtractError("method name %r of %s" % (nm, rec["name"]))
+                    self.methods.append(dict(ctor="%s_%s" % (rec["name"], nm), cls=rec["name"], name=c["name"], decl=c,
+                                             params=[p for p in c["inner"] if p.get("kind") == "ParmVarDecl"], body=body[0]))
+                elif c.get("kind") in ("CXXMethodDecl", "CXXDestructorDecl", "FunctionTemplateDecl", "CXXConversionDecl"):
+                    raise ExtractError("%s::%s has no body here" % (rec["name"], c.get("name")))
+        names = [m["ctor"] for m in self.methods]
+        if len(set(names)) != len(names):
+            raise ExtractError("overloaded methods in the CAPI classes: %r" % names)
+        # --- where CAPIRule::engineContext comes from ----------------------------------------------------
+        self.engine_ctx_ok = self.engine_context_field()
+        # --- the sites ------------------------------------------------------------------------------------
+        self.array = dict(method=None, src=None, order="other", elem=False)
+        self.status_map = {n: None for n, _ in self.eng_status}
+        self.status_evaluated = False
+        for m in self.methods:
+            self.analyse(m)
+        # a callback call anywhere else in the file is not in the table: fail closed
+        nsites = {}
+        for m in self.methods:
+            for s in m["sites"]:
+                nsites[s["field"]] = nsites.get(s["field"], 0) + 1
+        for filt in ("llb_buildengine_", "llb_task_create", "llb_data_destroy"):
+            for o in ast(filt):
+                if any(self.callback_call(n) for n in walk(o)):
+                    raise ExtractError("an exported function calls a client callback: %s" % o.get("name"))
+        txt = strip_comments(read(SRC))
+        for _, _, f, _, _ in self.cbs:
+            pass
+        for f in sorted(set(f for _, _, f, _, _ in self.cbs)):
+            textual = len(re.findall(r"(?:\.|->)\s*%s\s*\(" % re.escape(f), txt))
+            if textual != nsites.get(f, 0):
+                raise ExtractError("callback %s: %d call(s) in the source text, %d in the CAPI* methods" % (f, textual, nsites.get(f, 0)))
+
+    @staticmethod
+    def enum_constants(decls):
+        out, nxt = [], 0
+        for c in decls:
+            if c.get("kind") != "EnumConstantDecl":
+                continue
+            val = None
+            for n in walk(c):
+                if n.get("kind") == "ConstantExpr" and "value" in n:
+                    val = int(n["value"])
+                    break
+            if val is None:
+                if any(x.get("kind", "").endswith("Expr") or x.get("kind", "").endswith("Literal") or x.get("kind", "").endswith("Operator")
+                       for x in c.get("inner", [])):
+                    raise ExtractError("enumerator %s: initialiser without a constant value" % c["name"])
+                val = nxt
+            out.append((c["name"], val))
+            nxt = val + 1
+        return out
+
+    # ---------------------------------------------------------------------------------------------
+    def callback_field(self, n):
+        """(struct typedef, field, base node) if n is (after stripping) `X.<callback field>`"""
+        n = strip(n)
+        if n.get("kind") == "MemberExpr" and n.get("inner"):
+            base = strip(n["inner"][0])
+            bt = base.get("type", {}).get("qualType", "").replace("const ", "").strip()
+            if (bt, n.get("name")) in self.cb_of:
+                return bt, n["name"], base
+        return None
+
+    def callback_call(self, n):
+        if n.get("kind") == "CallExpr" and n.get("inner"):
+            return self.callback_field(n["inner"][0])
+        return None
+
+    def engine_context_field(self):
+        """CAPIRule::engineContext is assigned exactly once, in lookupRule, from this->cAPIDelegate.context, on the rule
+        object that is handed to lookup_rule"""
+        assigns = []
+        for m in self.methods:
+            for n in walk(m["body"]):
+                if n.get("kind") in ("BinaryOperator", "CompoundAssignOperator") and n.get("opcode", "").endswith("=") and n.get("opcode") not in ("==", "!=", "<=", ">="):
+                    lhs = strip(n["inner"][0])
+                    if lhs.get("kind") == "MemberExpr" and lhs.get("name") == "engineContext":
+                        assigns.append((m, n))
+            for n in walk(m["body"]):
+                if n.get("kind") == "UnaryOperator" and n.get("opcode") == "&":
+                    x = strip(n["inner"][0])
+                    if x.get("kind") == "MemberExpr" and x.get("name") == "engineContext":
+                        return False
+        if len(assigns) != 1:
+            return False
+        m, n = assigns[0]
+        if n.get("opcode") != "=" or m["name"] != "lookupRule":
+            return False
+        par = parents_of(m["body"])
+        if par.get(n["id"], {}).get("id") != m["body"]["id"]:
+            return False            # conditional assignment
+        lhs, rhs = strip(n["inner"][0]), strip(n["inner"][1])
+        if ref(lhs["inner"][0]) != ("VarDecl", "capiRule"):
+            return False
+        return self.is_engine_delegate_context_of_this(rhs)
+
+    @staticmethod
+    def is_engine_delegate_context_of_this(n):
+        n = strip(n)
+        if n.get("kind") == "MemberExpr" and n.get("name") == "context":
+            b = strip(n["inner"][0])
+            return b.get("kind") == "MemberExpr" and b.get("name") == "cAPIDelegate" and "llb_buildengine_delegate_t" in b.get("type", {}).get("qualType", "") \
+                and is_this(b["inner"][0])
+        return False
+
+    # ---------------------------------------------------------------------------------------------
+    def analyse(self, m):
+        body = m["body"]
+        par = parents_of(body)
+        pidx = {p.get("name"): i for i, p in enumerate(m["params"]) if p.get("name")}
+        locs = {n["name"]: n for n in walk(body) if n.get("kind") == "VarDecl" and n.get("name")}
+        refs = {}
+        for n in walk(body):
+            if n.get("kind") == "DeclRefExpr":
+                refs.setdefault(n.get("referencedDecl", {}).get("name"), []).append(n)
+        m["sites"] = []
+        m["unused"] = [i for i, p in enumerate(m["params"]) if not p.get("name") or p["name"] not in refs]
+        m["nblobs"] = sum(1 for n in walk(body) if n.get("kind") == "InitListExpr" and "llb_data_t" in n.get("type", {}).get("qualType", "")
+                          and "[" not in n["type"]["qualType"])
+        arr = self.find_array(m, par, pidx, locs, refs)
+        calls = [n for n in walk(body) if self.callback_call(n)]
+        st = self.status_table(m, calls) if any("StatusKind" in p["type"]["qualType"] for p in m["params"]) else None
+        for call in calls:
+            bt, field, base = self.callback_call(call)
+            cb = self.cb_of[(bt, field)]
+            ret, guard = self.context_of(m, call, par, cb, base)
+            args = [self.arg_shape(m, a, base, pidx, locs, refs, arr, st, call) for a in call["inner"][1:] if a.get("kind") != "CXXDefaultArgExpr"]
+            m["sites"].append(dict(cb=cb, field=field, guard=guard, args=args, ret=ret))
+
+    # --- statement context of a call: what happens to its value, and which conditions guard it ----------
+    def null_check(self, cond, negated):
+        """callback field X such that cond is `X` (negated=False) or `!X` (negated=True), else None"""
+        c = strip(cond)
+        if negated:
+            if not (c.get("kind") == "UnaryOperator" and c.get("opcode") == "!"):
+                return None
+            c = strip(c["inner"][0])
+        f = self.callback_field(c)
+        return f
+
+    def same_base(self, a, b):
+        a, b = strip(a), strip(b)
+        return a.get("kind") == "MemberExpr" and b.get("kind") == "MemberExpr" and a.get("name") == b.get("name") \
+            and is_this(a["inner"][0]) and is_this(b["inner"][0])
+
+    def context_of(self, m, call, par, cb, base):
+        void = self.cb_void[cb]
+        ret, casts, unknown, guards = None, [], False, []
+        cur, p = call, par.get(call["id"])
+        while p is not None and cur["id"] != m["body"]["id"]:
+            k = p.get("kind")
+            if ret is None:
+                if k in WRAPPERS:
+                    pass
+                elif k in CAST_KINDS:
+                    casts.append(p.get("castKind"))
+                elif k == "ReturnStmt":
+                    ret = "void" if void else ("passThrough" if not casts else "castPtr" if casts == ["BitCast"] else "other")
+                elif k == "UnaryOperator" and p.get("opcode") == "!":
+                    ret = "negated"
+                elif k in ("BinaryOperator", "ConditionalOperator", "CompoundAssignOperator"):
+                    ret = "combined"
+                elif k in ("CompoundStmt", "IfStmt"):
+                    ret = "void" if void else "dropped"
+                    continue            # handle the same parent as a statement below
+                else:
+                    ret = "other"       # stored in a variable, passed to a function, ...
+            else:
+                if k == "CompoundStmt":
+                    # early exits before the call inside this block
+                    for s in p["inner"]:
+                        if s["id"] == cur["id"]:
+                            break
+                        if any(x.get("kind") in ("ReturnStmt", "BreakStmt", "ContinueStmt", "GotoStmt", "CXXThrowExpr") for x in walk(s)):
+                            g = self.early_return_guard(s)
+                            if g is None:
+                                unknown = True
+                            else:
+                                guards.append(g)
+                elif k == "IfStmt":
+                    inner = p["inner"]
+                    f = self.null_check(inner[0], False) if len(inner) == 2 and not p.get("hasElse") and not p.get("hasInit") and not p.get("hasVar") else None
+                    if f is not None and inner[1]["id"] == cur["id"]:
+                        guards.append((f, "skip"))
+                    else:
+                        unknown = True
+                elif k in WRAPPERS or k in CAST_KINDS or k == "ReturnStmt":
+                    pass
+                elif k in ("UnaryOperator", "BinaryOperator", "ConditionalOperator"):
+                    if ret in ("negated", "combined"):
+                        ret = "combined"
+                    else:
+                        unknown = True
+                else:
+                    unknown = True      # loops, switch, lambda, try, ...
+            cur, p = p, par.get(p["id"])
+        if ret is None:
+            ret = "other"
+        if unknown or len(guards) > 1:
+            return ret, ".other"
+        if not guards:
+            return ret, ".unguarded"
+        (bt, field, gbase), fb = guards[0]
+        if not self.same_base(gbase, base):
+            return ret, ".other"
+        return ret, "(.ifNull .%s .%s)" % (self.cb_of[(bt, field)], fb)
+
+    def early_return_guard(self, s):
+        """`if (!X.cb) return [true|false];` -> ((struct, field, base), fallback)"""
+        if s.get("kind") != "IfStmt" or len(s["inner"]) != 2 or s.get("hasElse") or s.get("hasInit") or s.get("hasVar"):
+            return None
+        f = self.null_check(s["inner"][0], True)
+        if f is None:
+            return None
+        t = s["inner"][1]
+        if t.get("kind") == "CompoundStmt" and len(t.get("inner", [])) == 1:
+            t = t["inner"][0]
+        if t.get("kind") != "ReturnStmt":
+            return None
+        if not t.get("inner"):
+            return f, "returnVoid"
+        v = strip(t["inner"][0])
+        if v.get("kind") == "CXXBoolLiteralExpr":
+            return f, "returnTrue" if v.get("value") else "returnFalse"
+        return f, "other"
+
+    # --- shapes of the arguments --------------------------------------------------------------------------
+    def blob_init_shape(self, init, pidx, locs):
+        """llb_data_t{ X.size(), X.data() } -> ('param', i) / ('ruleKeyOf', local) / None"""
+        init = strip(init)
+        if init.get("kind") != "InitListExpr" or len(init.get("inner", [])) != 2:
+            return None
+        x, y = strip(init["inner"][0]), strip_casts(init["inner"][1])
+        if not (x.get("kind") == "CXXMemberCallExpr" and y.get("kind") == "CXXMemberCallExpr" and len(x["inner"]) == 1 and len(y["inner"]) == 1
+                and x["inner"][0].get("name") == "size" and y["inner"][0].get("name") == "data"):
+            return None
+        ox, oy = ref(x["inner"][0]["inner"][0]), ref(y["inner"][0]["inner"][0])
+        if ox != oy or ox[1] is None:
+            return None
+        if ox[0] == "ParmVarDecl" and ox[1] in pidx:
+            return "param", pidx[ox[1]]
+        if ox[0] == "VarDecl":
+            return "local", ox[1]
+        return None
+
+    def arg_shape(self, m, a, base, pidx, locs, refs, arr, st, call):
+        n = strip(a)
+        k = n.get("kind")
+        qt = n.get("type", {}).get("qualType", "")
+        # status conversion
+        if a.get("type", {}).get("qualType", "") == "llb_rule_status_kind_t" or qt == "llb_rule_status_kind_t":
+            sp = [i for i, p in enumerate(m["params"]) if "StatusKind" in p["type"]["qualType"]]
+            if st is not None and len(sp) == 1 and st.get(call["id"]) == "ok":
+                return "(.statusOf %d)" % sp[0]
+            return ".other"
+        if k == "MemberExpr" and n.get("name") == "context":
+            b = strip(n["inner"][0])
+            if self.same_base(b, base) and b.get("type", {}).get("qualType") == base.get("type", {}).get("qualType"):
+                return ".ownContext"
+            # delegate->cAPIDelegate.context with delegate = static_cast<CAPIBuildEngineDelegate*>(ti.delegate())
+            if b.get("kind") == "MemberExpr" and b.get("name") == "cAPIDelegate" and "llb_buildengine_delegate_t" in b.get("type", {}).get("qualType", ""):
+                dk, nm = ref(b["inner"][0])
+                v = locs.get(nm) if dk == "VarDecl" else None
+                if v is not None and v.get("inner") and len(refs.get(nm, [])) == 1:
+                    init = strip(v["inner"][0])
+                    if init.get("kind") == "CXXStaticCastExpr" and "CAPIBuildEngineDelegate *" in init["type"]["qualType"]:
+                        c = strip(init["inner"][0])
+                        if c.get("kind") == "CXXMemberCallExpr" and c["inner"][0].get("name") == "delegate" and len(c["inner"]) == 1:
+                            dk2, nm2 = ref(c["inner"][0]["inner"][0])
+                            if dk2 == "ParmVarDecl" and "TaskInterface" in m["params"][pidx[nm2]]["type"]["qualType"]:
+                                return ".engineContext"
+            return ".other"
+        if k == "MemberExpr" and n.get("name") == "engineContext" and is_this(n["inner"][0]):
+            return ".engineContext" if self.engine_ctx_ok else ".other"
+        if k == "UnaryOperator" and n.get("opcode") == "&":
+            x = strip(n["inner"][0])
+            if x.get("kind") == "DeclRefExpr":
+                dk, nm = ref(x)
+                v = locs.get(nm) if dk == "VarDecl" else None
+                if v is not None and v["type"]["qualType"] == "llb_data_t":
+                    sh = self.blob_init_shape(v["inner"][0], pidx, locs) if v.get("inner") else None
+                    if sh and sh[0] == "param" and len(refs.get(nm, [])) == 1:
+                        return "(.blobOf %d)" % sh[1]
+                    return ".blobBad"
+            if x.get("kind") == "MemberExpr" and x.get("type", {}).get("qualType") == "llb_rule_t":
+                if self.same_base(x, base):
+                    return ".ownRule"
+                # &capiRule->rule of `CAPIRule* capiRule = new CAPIRule(key)`, returned as the rule
+                dk, nm = ref(x["inner"][0])
+                v = locs.get(nm) if dk == "VarDecl" else None
+                if v is not None and v.get("inner") and x.get("name") == "rule":
+                    init = strip(v["inner"][0])
+                    if init.get("kind") == "CXXNewExpr" and len(init.get("inner", [])) == 1:
+                        c = init["inner"][0]
+                        cargs = [q for q in c.get("inner", []) if q.get("kind") != "CXXDefaultArgExpr"]
+                        if c.get("kind") == "CXXConstructExpr" and "CAPIRule" in c["type"]["qualType"] and len(cargs) == 1:
+                            dk2, nm2 = ref(cargs[0])
+                            rets = [r for r in walk(m["body"]) if r.get("kind") == "ReturnStmt"]
+                            returned = len(rets) == 1 and any(ref(q) == ("VarDecl", nm) for q in walk(rets[0]) if q.get("kind") == "DeclRefExpr")
+                            if dk2 == "ParmVarDecl" and returned:
+                                return "(.newRuleOut %d)" % pidx[nm2]
+            return ".other"
+        if k == "CXXConstructExpr" and qt == "llb_task_interface_t" and len(n.get("inner", [])) == 1:
+            x = strip(n["inner"][0])
+            if x.get("kind") == "UnaryOperator" and x.get("opcode") == "*":
+                y = strip(x["inner"][0])
+                if y.get("kind") == "CXXReinterpretCastExpr" and y["type"]["qualType"] == "llb_task_interface_t *":
+                    z = strip(y["inner"][0])
+                    if z.get("kind") == "UnaryOperator" and z.get("opcode") == "&":
+                        dk, nm = ref(z["inner"][0])
+                        if dk == "ParmVarDecl" and "TaskInterface" in m["params"][pidx[nm]]["type"]["qualType"]:
+                            return "(.taskInterface %d)" % pidx[nm]
+            return ".other"
+        if k == "DeclRefExpr":
+            dk, nm = ref(n)
+            if dk == "ParmVarDecl":
+                return "(.param %d)" % pidx[nm]
+            return ".other"
+        if k == "CXXMemberCallExpr" and len(n["inner"]) == 1 and n["inner"][0].get("kind") == "MemberExpr":
+            me = n["inner"][0]
+            obj = strip(me["inner"][0])
+            if me.get("name") in ("data", "size") and obj.get("kind") == "DeclRefExpr" and arr is not None and ref(obj) == ("VarDecl", arr):
+                return ".arrayData" if me["name"] == "data" else ".arrayCount"
+            if me.get("name") == "c_str" and obj.get("kind") == "CXXMemberCallExpr" and len(obj["inner"]) == 1 and obj["inner"][0].get("name") == "str":
+                dk, nm = ref(obj["inner"][0]["inner"][0])
+                if dk == "ParmVarDecl":
+                    return "(.cstrOf %d)" % pidx[nm]
+        return ".other"
+
+    # --- the array of keys handed to cycle_detected ---------------------------------------------------------
+    def find_array(self, m, par, pidx, locs, refs):
+        """the one `std::vector<llb_data_t>` local of the method: records how it is built in self.array and returns its name
+        (so that `<name>.data()` / `<name>.size()` are recognised as arguments)"""
+        vecs = [v for v in locs.values() if re.search(r"vector<llb_data_t_?>", v["type"]["qualType"])]
+        if not vecs:
+            return None
+        if len(vecs) != 1 or self.array["method"] is not None:
+            raise ExtractError("more than one llb_data_t vector (%s)" % m["ctor"])
+        v = vecs[0]
+        nm = v["name"]
+        A = self.array
+        A["method"] = m["ctor"]
+        init = strip(v["inner"][0]) if v.get("inner") else None
+        fresh = init is not None and init.get("kind") == "CXXConstructExpr" and not [q for q in init.get("inner", []) if q.get("kind") != "CXXDefaultArgExpr"]
+        uses = {"reserve": [], "push_back": [], "data": [], "size": [], "?": []}
+        for r in refs.get(nm, []):
+            p = par.get(r["id"])
+            while p is not None and p.get("kind") in WRAPPERS:
+                p = par.get(p["id"])
+            if p is not None and p.get("kind") == "MemberExpr" and p.get("name") in uses:
+                uses[p["name"]].append(p)
+            else:
+                uses["?"].append(r)
+        names = set()
+        for n in walk(m["body"]):
+            if n.get("kind") == "DeclRefExpr":
+                names.add(n.get("referencedDecl", {}).get("name"))
+            if n.get("kind") == "MemberExpr":
+                names.add(n.get("name"))
+        names = " ".join(x for x in names if x)
+        if len(uses["push_back"]) != 1:
+            return nm
+        pb = par[uses["push_back"][0]["id"]]         # the CXXMemberCallExpr
+        # element: { K.size(), K.data() } of one local K bound to `<rule>->key`
+        arg = [q for q in pb["inner"][1:] if q.get("kind") != "CXXDefaultArgExpr"]
+        sh = self.blob_init_shape(arg[0], pidx, locs) if len(arg) == 1 else None
+        kbase = (None, None)
+        if sh and sh[0] == "local":
+            kv = locs.get(sh[1])
+            ki = strip(kv["inner"][0]) if kv is not None and kv.get("inner") else {}
+            if ki.get("kind") == "MemberExpr" and ki.get("name") == "key" and len(refs.get(sh[1], [])) == 2:
+                A["elem"] = True
+                kbase = ref(ki["inner"][0])
+        # order: forward iff the vector starts empty, is appended to once per item by ONE range-for over a parameter itself
+        # (K being the key of the loop's item), the loop body has no branch, and nothing else touches the vector
+        if re.search(r"reverse|rbegin|rend", names):
+            A["order"] = "reversed"
+            return nm
+        if not fresh or uses["?"] or len(uses["data"]) != 1 or len(uses["size"]) != 1 or re.search(r"insert|emplace|front|erase|pop_back|swap|rotate|sort", names):
+            return nm
+        loops, bad, cur = [], False, pb
+        p = par.get(pb["id"])
+        while p is not None and cur["id"] != m["body"]["id"]:
+            k = p.get("kind")
+            if k == "CXXForRangeStmt":
+                if p["inner"][-1]["id"] != cur["id"]:
+                    bad = True
+                loops.append(p)
+            elif k not in WRAPPERS and k != "CompoundStmt":
+                bad = True
+            cur, p = p, par.get(p["id"])
+        if bad or len(loops) != 1:
+            return nm
+        kids = loops[0]["inner"]
+        rng = [d for d in kids if d.get("kind") == "DeclStmt" and d["inner"][0].get("name", "").startswith("__range")]
+        lv = kids[-2]["inner"][0] if kids[-2].get("kind") == "DeclStmt" else None
+        src = ref(rng[0]["inner"][0]["inner"][0]) if rng and rng[0]["inner"][0].get("inner") else (None, None)
+        stmts = kids[-1].get("inner", []) if kids[-1].get("kind") == "CompoundStmt" else [kids[-1]]
+        branchy = any(x.get("kind") in ("IfStmt", "ContinueStmt", "BreakStmt", "ReturnStmt", "SwitchStmt", "ConditionalOperator", "ForStmt", "WhileStmt",
+                                        "DoStmt", "GotoStmt", "CXXForRangeStmt") for s_ in stmts for x in walk(s_))
+        if src[0] == "ParmVarDecl" and lv is not None and not (kids[0] or {}).get("kind") and not branchy and kbase == ("VarDecl", lv.get("name")):
+            A["src"] = pidx[src[1]]
+            A["order"] = "forward"
+        return nm
+
+    # --- Rule::StatusKind -> llb_rule_status_kind_t: interpret the method once per enumerator -----------------
+    def status_table(self, m, calls):
+        sp = [p for p in m["params"] if "StatusKind" in p["type"]["qualType"]]
+        if len(sp) != 1 or not sp[0].get("name") or self.status_evaluated:
+            return None
+        self.status_evaluated = True
+        pname = sp[0]["name"]
+        status_calls = {}
+        for c in calls:
+            idx = [i for i, a in enumerate(c["inner"][1:]) if a.get("type", {}).get("qualType") == "llb_rule_status_kind_t"]
+            if len(idx) == 1:
+                status_calls[c["id"]] = idx[0] + 1
+        result = {c: "ok" for c in status_calls}
+        for name, val in self.eng_status:
+            seen = []
+            try:
+                self.exec_stmt(m["body"], {pname: val}, status_calls, seen)
+            except Unknown:
+                for c in status_calls:
+                    result[c] = "unknown"
+                self.status_map = {n: None for n, _ in self.eng_status}
+                return result
+            except _Return:
+                pass
+            if len(seen) == 1:
+                cands = [cn for cn, cv in self.c_status if cv == seen[0][1]]
+                self.status_map[name] = cands[0] if len(cands) == 1 else None
+            else:
+                self.status_map[name] = None
+        return result
+
+    def exec_stmt(self, s, env, status_calls, seen):
+        """returns 'break' when a break statement was executed, raises _Return on return"""
+        k = s.get("kind")
+        if k == "CompoundStmt":
+            for c in s.get("inner", []):
+                if self.exec_stmt(c, env, status_calls, seen) == "break":
+                    return "break"
+            return None
+        if k in ("NullStmt",):
+            return None
+        if k == "BreakStmt":
+            return "break"
+        if k == "ReturnStmt":
+            if s.get("inner"):
+                self.exec_expr_stmt(s["inner"][0], env, status_calls, seen)
+            raise _Return()
+        if k == "IfStmt":
+            if s.get("hasInit") or s.get("hasVar"):
+                raise Unknown()
+            inner = s["inner"]
+            if self.eval(inner[0], env):
+                return self.exec_stmt(inner[1], env, status_calls, seen)
+            if len(inner) > 2:
+                return self.exec_stmt(inner[2], env, status_calls, seen)
+            return None
+        if k == "DeclStmt":
+            for v in s.get("inner", []):
+                if v.get("kind") != "VarDecl":
+                    raise Unknown()
+                if v.get("inner"):
+                    try:
+                        env[v["name"]] = self.eval(v["inner"][0], env)
+                    except Unknown:
+                        env[v["name"]] = None
+                else:
+                    env[v["name"]] = None
+            return None
+        if k == "SwitchStmt":
+            if s.get("hasInit") or s.get("hasVar") or len(s["inner"]) != 2 or s["inner"][1].get("kind") != "CompoundStmt":
+                raise Unknown()
+            v = self.eval(s["inner"][0], env)
+            flat = []                  # (labels, statement)
+
+            def unlabel(st, labels):
+                while st.get("kind") in ("CaseStmt", "DefaultStmt"):
+                    if st["kind"] == "CaseStmt":
+                        if len(st["inner"]) != 2:
+                            raise Unknown()
+                        labels.append(self.eval(st["inner"][0], env))
+                        st = st["inner"][1]
+                    else:
+                        labels.append("default")
+                        st = st["inner"][0]
+                return st
+            for st in s["inner"][1].get("inner", []):
+                labels = []
+                body = unlabel(st, labels)
+                flat.append((labels, body))
+            start = next((i for i, (l, _) in enumerate(flat) if v in [x for x in l if x != "default"]), None)
+            if start is None:
+                start = next((i for i, (l, _) in enumerate(flat) if "default" in l), None)
+            if start is None:
+                return None
+            for _, body in flat[start:]:
+                if self.exec_stmt(body, env, status_calls, seen) == "break":
+                    break
+            return None
+        if k in ("ForStmt", "WhileStmt", "DoStmt", "CXXForRangeStmt", "GotoStmt", "LabelStmt", "CXXTryStmt", "ContinueStmt"):
+            raise Unknown()
+        self.exec_expr_stmt(s, env, status_calls, seen)
+        return None
+
+    def exec_expr_stmt(self, e, env, status_calls, seen):
+        n = strip(e)
+        k = n.get("kind")
+        if k == "CallExpr":
+            if n["id"] in status_calls:
+                seen.append((n["id"], self.eval(n["inner"][status_calls[n["id"]]], env)))
+                return
+            if self.callback_call(n):
+                return                # another callback: no effect on the status value
+            if ref(n["inner"][0])[1] in ("__assert_fail", "__assert_rtn", "abort"):
+                raise _Return()
+            raise Unknown()
+        if k == "BinaryOperator" and n.get("opcode") == "=":
+            dk, nm = ref(n["inner"][0])
+            if dk == "VarDecl":
+                env[nm] = self.eval(n["inner"][1], env)
+                return
+            raise Unknown()
+        if k == "ConditionalOperator":         # assert(): (cond) ? void(0) : __assert_fail(...)
+            c = self.eval(n["inner"][0], env)
+            self.exec_expr_stmt(n["inner"][1 if c else 2], env, status_calls, seen)
+            return
+        if k in ("IntegerLiteral", "CXXBoolLiteralExpr"):
+            return
+        if any(x["id"] in status_calls for x in walk(n) if "id" in x):
+            raise Unknown()            # the status call buried in an expression we do not interpret
+        if any(x.get("kind") in ("BinaryOperator", "CompoundAssignOperator", "UnaryOperator", "CallExpr", "CXXMemberCallExpr", "CXXOperatorCallExpr")
+               for x in walk(n)):
+            raise Unknown()
+        return
+
+    def eval(self, e, env):
+        n = e
+        while n.get("kind") in WRAPPERS + CAST_KINDS and len(n.get("inner", [])) == 1:
+            if n.get("castKind") == "PointerToBoolean" or n.get("castKind") == "MemberPointerToBoolean":
+                if self.callback_field(n["inner"][0]):
+                    return 1            # the callback under consideration is set
+                raise Unknown()
+            n = n["inner"][0]
+        k = n.get("kind")
+        if k == "IntegerLiteral":
+            return int(n["value"])
+        if k == "CXXBoolLiteralExpr":
+            return 1 if n.get("value") else 0
+        if k == "DeclRefExpr":
+            d = n.get("referencedDecl", {})
+            if d.get("kind") == "EnumConstantDecl":
+                if d.get("name") in self.enum_val:
+                    return self.enum_val[d["name"]]
+                raise Unknown()
+            if d.get("kind") in ("ParmVarDecl", "VarDecl") and env.get(d.get("name")) is not None:
+                return env[d["name"]]
+            raise Unknown()
+        if k == "UnaryOperator":
+            v = self.eval(n["inner"][0], env)
+            op = n.get("opcode")
+            if op == "!":
+                return 0 if v else 1
+            if op == "-":
+                return -v
+            if op == "+":
+                return v
+            if op == "~":
+                return ~v
+            raise Unknown()
+        if k == "BinaryOperator":
+            op = n.get("opcode")
+            a = self.eval(n["inner"][0], env)
+            if op == "&&":
+                return 1 if (a and self.eval(n["inner"][1], env)) else 0
+            if op == "||":
+                return 1 if (a or self.eval(n["inner"][1], env)) else 0
+            b = self.eval(n["inner"][1], env)
+            table = {"==": lambda: int(a == b), "!=": lambda: int(a != b), "<": lambda: int(a < b), ">": lambda: int(a > b),
+                     "<=": lambda: int(a <= b), ">=": lambda: int(a >= b), "+": lambda: a + b, "-": lambda: a - b, "*": lambda: a * b,
+                     "^": lambda: a ^ b, "&": lambda: a & b, "|": lambda: a | b, "%": lambda: a % b if b else None,
+                     "<<": lambda: a << b if 0 <= b < 64 else None, ">>": lambda: a >> b if 0 <= b < 64 else None}
+            if op in table:
+                r = table[op]()
+                if r is None:
+                    raise Unknown()
+                return r
+            raise Unknown()
+        if k == "ConditionalOperator":
+            return self.eval(n["inner"][1 if self.eval(n["inner"][0], env) else 2], env)
+        raise Unknown()
+
+
+class _Return(Exception):
+    pass
+
+
+def run_callbacks(src):
+    C = Callbacks()
+    eng = [n for n, _ in C.eng_status]
+    cst = [n for n, _ in C.c_status]
+    for n in eng + cst:
+        if not re.fullmatch(r"[A-Za-z_]\w*", n):
+            raise ExtractError("enumerator name %r" % n)
+    L = ["namespace LLBuild.Generated.CApiCallbacks\n"]
+    L.append("/-- the client's callbacks: function-pointer fields of `llb_rule_t` (rule_), `llb_buildengine_delegate_t` (engine_) and\n"
+             "`llb_task_delegate_t` (task_) in core.h, declaration order -/")
+    L.append("inductive Callback where\n" + "\n".join("  | %s" % c[0] for c in C.cbs) + "\n  deriving DecidableEq, Repr\n")
+    L.append("def Callback.all : List Callback := [" + ", ".join("." + c[0] for c in C.cbs) + "]\n")
+    L.append("def Callback.name : Callback → String\n" + "\n".join('  | .%s => "%s.%s"' % (c[0], c[1], c[2]) for c in C.cbs) + "\n")
+    L.append("/-- number of parameters of the function-pointer type -/")
+    L.append("def Callback.arity : Callback → Nat\n" + "\n".join("  | .%s => %d" % (c[0], c[3]) for c in C.cbs) + "\n")
+    L.append("/-- methods (destructors: `_dtor`) with a body of the classes " + ", ".join(C.class_names) + " of Core-C-API.cpp, source order -/")
+    L.append("inductive Method where\n" + "\n".join("  | %s" % m["ctor"] for m in C.methods) + "\n  deriving DecidableEq, Repr\n")
+    L.append("def Method.all : List Method := [" + ", ".join("." + m["ctor"] for m in C.methods) + "]\n")
+    L.append("def Method.name : Method → String\n" + "\n".join('  | .%s => "%s::%s"' % (m["ctor"], m["cls"], m["name"]) for m in C.methods) + "\n")
+    L.append("def Method.paramNames : Method → List String\n" + "\n".join(
+        "  | .%s => [%s]" % (m["ctor"], ", ".join('"%s"' % (p.get("name") or "") for p in m["params"])) for m in C.methods) + "\n")
+    L.append("/-- `llbuild::core::Rule::StatusKind` (include/llbuild/Core/BuildEngine.h) -/")
+    L.append("inductive EngineStatus where\n" + "\n".join("  | %s" % n for n in eng) + "\n  deriving DecidableEq, Repr\n")
+    L.append("def EngineStatus.all : List EngineStatus := [" + ", ".join("." + n for n in eng) + "]\n")
+    L.append("def EngineStatus.value : EngineStatus → Int\n" + "\n".join("  | .%s => %d" % (n, v) for n, v in C.eng_status) + "\n")
+    L.append("/-- `llb_rule_status_kind_t` (core.h) -/")
+    L.append("inductive CStatus where\n" + "\n".join("  | %s" % n for n in cst) + "\n  deriving DecidableEq, Repr\n")
+    L.append("def CStatus.all : List CStatus := [" + ", ".join("." + n for n in cst) + "]\n")
+    L.append("def CStatus.value : CStatus → Int\n" + "\n".join("  | .%s => %d" % (n, v) for n, v in C.c_status) + "\n")
+    L.append("/-- what the client receives for each engine status: the method holding the `update_status` call is interpreted once per\n"
+             "enumerator (casts keep the numeric value; `switch`, `if`, `?:`, locals are followed); `none` = no C enumerator with that value,\n"
+             "no call, several calls, or code the extractor does not interpret -/")
+    L.append("def statusMap : EngineStatus → Option CStatus\n" + "\n".join(
+        "  | .%s => %s" % (n, "none" if C.status_map[n] is None else "some .%s" % C.status_map[n]) for n in eng) + "\n")
+    L.append("/-- shape of an argument handed to the client (method parameters 0-based) -/")
+    L.append("inductive CbArg where\n"
+             "  | ownContext             -- `S.context` of the very struct S whose callback is called (rule.context / cAPIDelegate.context)\n"
+             "  | engineContext          -- the engine delegate's `cAPIDelegate.context`: via `static_cast<CAPIBuildEngineDelegate*>(ti.delegate())`,\n"
+             "                           -- or CAPIRule::engineContext, assigned exactly once (lookupRule, unconditionally) from it\n"
+             "  | blobOf (i : Nat)       -- `&d` with `llb_data_t d{ p_i.size(), p_i.data() }`, d used nowhere else\n"
+             "  | blobBad                -- `&d` with an `llb_data_t d` of any other shape\n"
+             "  | ownRule                -- `&rule`: the llb_rule_t whose callback is called\n"
+             "  | newRuleOut (i : Nat)   -- `&capiRule->rule` of `capiRule = new CAPIRule(p_i)`, which the method returns as the rule\n"
+             "  | taskInterface (i : Nat)  -- `*reinterpret_cast<llb_task_interface_t*>(&p_i)`, p_i a TaskInterface\n"
+             "  | param (i : Nat)        -- parameter i passed through\n"
+             "  | statusOf (i : Nat)     -- the status conversion of p_i (see `statusMap`)\n"
+             "  | arrayData              -- `keys.data()` of the vector described by `cycleArray`\n"
+             "  | arrayCount             -- `keys.size()` of the same vector\n"
+             "  | cstrOf (i : Nat)       -- `p_i.str().c_str()` (Twine rendered as a C string)\n"
+             "  | other\n  deriving DecidableEq, Repr\n")
+    L.append("/-- what the method does instead of the call when the callback is null -/")
+    L.append("inductive Fallback where\n  | returnTrue | returnFalse | returnVoid   -- `if (!cb) return ...;` before the call\n"
+             "  | skip                                   -- `if (cb) { call }`: nothing else happens\n  | other\n  deriving DecidableEq, Repr\n")
+    L.append("inductive Guard where\n  | unguarded                              -- the call is reached on every execution of the method\n"
+             "  | ifNull (cb : Callback) (fb : Fallback)   -- exactly one condition: a null check of `cb`\n"
+             "  | other                                  -- any other condition / loop / early exit on the way to the call\n  deriving DecidableEq, Repr\n")
+    L.append("/-- what happens to the value the client returns -/")
+    L.append("inductive Ret where\n  | void          -- the callback returns void\n  | passThrough   -- `return cb(...);`\n"
+             "  | castPtr       -- `return (T*) cb(...);` (one pointer bit-cast)\n  | negated | combined | dropped | other\n  deriving DecidableEq, Repr\n")
+    L.append("structure Site where\n  callback : Callback\n  guard : Guard\n  args : List CbArg\n  ret : Ret\n  deriving DecidableEq, Repr\n")
+    L.append("/-- client callback calls made by each method, in source order -/")
+    L.append("def sitesOf : Method → List Site\n" + "\n".join(
+        "  | .%s => [%s]" % (m["ctor"], ", ".join("⟨.%s, %s, [%s], .%s⟩" % (s["cb"], s["guard"], ", ".join(s["args"]), s["ret"]) for s in m["sites"]))
+        for m in C.methods) + "\n")
+    L.append("/-- parameters (0-based) never referenced in the body (unnamed ones included) -/")
+    L.append("def unusedMethodParams : Method → List Nat\n" + "\n".join("  | .%s => [%s]" % (m["ctor"], ", ".join(map(str, m["unused"]))) for m in C.methods) + "\n")
+    L.append("/-- number of `llb_data_t{...}` initialisers in each method -/")
+    L.append("def outBlobsIn : Method → Nat\n" + "\n".join("  | .%s => %d" % (m["ctor"], m["nblobs"]) for m in C.methods) + "\n")
+    nexp = 0
+    for o in ast("llb_buildengine_"):
+        nexp += sum(1 for n in walk(o) if n.get("kind") == "InitListExpr" and "llb_data_t" in n.get("type", {}).get("qualType", "")
+                    and "[" not in n["type"]["qualType"])
+    L.append("/-- the same count over the exported `llb_buildengine_*` functions -/")
+    L.append("def outBlobsInExported : Nat := %d\n" % nexp)
+    L.append("inductive Order where\n  | forward    -- one range-for over the parameter itself, appending one element per item, nothing else touches the vector\n"
+             "  | reversed   -- reverse / rbegin / rend appear\n  | other\n  deriving DecidableEq, Repr\n")
+    L.append("/-- how the `std::vector<llb_data_t>` passed as (`arrayData`, `arrayCount`) is built -/")
+    L.append("structure ArrayShape where\n  method : Option Method\n  srcParam : Option Nat   -- the parameter iterated over\n  order : Order\n"
+             "  elemIsKeyBlob : Bool    -- each element is `{ K.size(), K.data() }` with `K = item->key` of the loop's item\n  deriving DecidableEq, Repr\n")
+    A = C.array
+    L.append("def cycleArray : ArrayShape := ⟨%s, %s, .%s, %s⟩\n" % (
+        "none" if A["method"] is None else "some .%s" % A["method"], "none" if A["src"] is None else "some %d" % A["src"], A["order"],
+        "true" if A["elem"] else "false"))
+    L.append("end LLBuild.Generated.CApiCallbacks")
+    return write_generated("CApiCallbacks", "\n".join(L), [(SRC, src), (HDR, read(HDR)), ("include/llbuild/Core/BuildEngine.h", read("include/llbuild/Core/BuildEngine.h"))])
+
+
+
 def run():
+    _AST_CACHE.clear()
+    prefetch(["llb_buildengine_", "CAPI", "StatusKind", "llb_rule_", "llb_buildengine_delegate_t_", "llb_task_delegate_t_",
+              "llb_task_create", "llb_data_destroy"])
     src = read(SRC)
     fns = []
     for o in ast("llb_buildengine_"):
@@ -276,7 +1113,9 @@ def run():
     L.append("/-- every `llb_data_t{...}` the library builds for the client: is it `{X.size(), X.data()}` of one object X? -/")
     L.append("def outBlobsSizeData : List Bool := [" + ", ".join("true" if ok else "false" for _, ok in outs) + "]\n")
     L.append("end LLBuild.Generated.CApiForward")
-    return write_generated("CApiForward", "\n".join(L), [(SRC, src), (HDR, read(HDR))])
+    info = write_generated("CApiForward", "\n".join(L), [(SRC, src), (HDR, read(HDR))])
+    info["also"] = [run_callbacks(src)]
+    return info
 
 
 if __name__ == "__main__":
